@@ -1067,3 +1067,246 @@ func TestAacAdts(t *testing.T) {
 		Quick: 5000, Thorough: 20000,
 	})
 }
+
+// ---------------------------------------------------------------------------
+// hevc-record-robust
+//
+// HEVCDecoderConfigurationRecords a peer can send that are NOT complete: an array type missing, arrays
+// with numNalus = 0, zero arrays, the record cut at every array / NAL-unit boundary or anywhere else.
+// The readers must answer with an error or with sets that are in the record — never panic, never
+// return a set the record does not contain (an absent VPS reported as "no error, empty VPS" would make
+// the callers treat the stream as H.264).
+
+type RecArray struct {
+	Type  int  `json:"type"` // 0 VPS, 1 SPS, 2 PPS, 3 prefix SEI
+	Units []PS `json:"units"`
+}
+
+type HevcRobustCase struct {
+	Arrays   []RecArray `json:"arrays"`
+	Enhanced bool       `json:"enhanced"`
+	// Cut >= 0: keep only the first Cut bytes of the record's array part (clamped); CutAtBoundary picks the
+	// Cut-th array / unit boundary instead
+	Cut           int  `json:"cut"`
+	CutAtBoundary bool `json:"cut_at_boundary"`
+	// NumArraysField overrides numOfArrays when >= 0 (more arrays announced than present)
+	NumArraysField int `json:"num_arrays_field"`
+}
+
+func genHevcRobust(t *rapid.T) HevcRobustCase {
+	var c HevcRobustCase
+	c.Enhanced = rapid.Bool().Draw(t, "enhanced")
+	c.Cut, c.NumArraysField = -1, -1
+	switch rapid.IntRange(0, 5).Draw(t, "shape") {
+	case 0: // one of VPS / SPS / PPS missing
+		missing := rapid.IntRange(0, 2).Draw(t, "missing")
+		for ty := 0; ty < 3; ty++ {
+			if ty != missing {
+				c.Arrays = append(c.Arrays, RecArray{Type: ty, Units: []PS{psGen(300).Draw(t, "u")}})
+			}
+		}
+		if rapid.Bool().Draw(t, "sei") {
+			c.Arrays = append(c.Arrays, RecArray{Type: 3, Units: []PS{{Seed: 1, Len: 6}}})
+		}
+	case 1: // an array with numNalus = 0
+		empty := rapid.IntRange(0, 2).Draw(t, "empty")
+		for ty := 0; ty < 3; ty++ {
+			a := RecArray{Type: ty}
+			if ty != empty {
+				a.Units = []PS{psGen(300).Draw(t, "u")}
+			}
+			c.Arrays = append(c.Arrays, a)
+		}
+	case 2: // zero arrays
+	default:
+		n := rapid.IntRange(0, 5).Draw(t, "nArrays")
+		for i := 0; i < n; i++ {
+			a := RecArray{Type: rapid.IntRange(0, 3).Draw(t, "type")}
+			for j, m := 0, rapid.IntRange(0, 2).Draw(t, "nUnits"); j < m; j++ {
+				a.Units = append(a.Units, psGen(300).Draw(t, "u"))
+			}
+			c.Arrays = append(c.Arrays, a)
+		}
+	}
+	if rapid.IntRange(0, 2).Draw(t, "permute") == 0 && len(c.Arrays) > 1 {
+		c.Arrays = rapid.Permutation(c.Arrays).Draw(t, "order")
+	}
+	switch rapid.IntRange(0, 3).Draw(t, "cutClass") {
+	case 0:
+		c.CutAtBoundary = true
+		c.Cut = rapid.IntRange(0, 12).Draw(t, "cutBoundary")
+	case 1:
+		c.Cut = rapid.IntRange(0, 700).Draw(t, "cut")
+	}
+	if rapid.IntRange(0, 5).Draw(t, "moreArrays") == 0 {
+		c.NumArraysField = rapid.IntRange(0, 255).Draw(t, "numArrays")
+	}
+	return c
+}
+
+func (c HevcRobustCase) build() (payload []byte, lists [3][][]byte) {
+	hdrs := [][]byte{hevcVPSHdr, hevcSPSHdr, hevcPPSHdr, codecref.H265NALHeader(39, 0, 1)}
+	rec := codecref.HEVCConfig{ProfileIdc: 1, CompatFlags: 0x60000000, ConstraintFlags: 0x900000000000, LevelIdc: 93, ChromaFormat: 1,
+		NumTemporalLayers: 1, TemporalIdNested: true, LengthSizeMinusOne: 3}
+	fixed := len(rec.Marshal()) // 23 bytes: everything up to and including numOfArrays
+	var boundaries []int        // offsets (in the array part) where an array header, a length field or a unit ends
+	off := 0
+	for _, a := range c.Arrays {
+		ra := codecref.HEVCArray{Completeness: true, NALType: uint8(32 + a.Type)}
+		if a.Type == 3 {
+			ra.NALType = 39
+		}
+		boundaries = append(boundaries, off)
+		off += 3
+		boundaries = append(boundaries, off)
+		for _, u := range a.Units {
+			b := u.bytes(hdrs[a.Type])
+			ra.NALUs = append(ra.NALUs, b)
+			if a.Type < 3 {
+				lists[a.Type] = append(lists[a.Type], b)
+			}
+			off += 2
+			boundaries = append(boundaries, off)
+			off += len(b)
+			boundaries = append(boundaries, off)
+		}
+		rec.Arrays = append(rec.Arrays, ra)
+	}
+	body := rec.Marshal()
+	if c.NumArraysField >= 0 {
+		body[22] = byte(c.NumArraysField)
+	}
+	if c.Cut >= 0 {
+		cut := c.Cut
+		if c.CutAtBoundary {
+			if len(boundaries) == 0 {
+				cut = 0
+			} else {
+				cut = boundaries[c.Cut%len(boundaries)]
+			}
+		}
+		if fixed+cut < len(body) {
+			body = body[:fixed+cut]
+		}
+	}
+	if c.Enhanced {
+		return codecref.RtmpHevcEnhancedSeqHeader(body), lists
+	}
+	return codecref.RtmpHevcSeqHeader(body), lists
+}
+
+func runHevcRobust(c HevcRobustCase) *pbt.Violation {
+	payload, lists := c.build()
+	member := func(b []byte, l [][]byte) bool {
+		for _, e := range l {
+			if eq(b, e) {
+				return true
+			}
+		}
+		return false
+	}
+	type parser struct {
+		name string
+		f    func([]byte) ([]byte, []byte, []byte, error)
+	}
+	parsers := []parser{{"ParseVpsSpsPpsFromSeqHeader", hevc.ParseVpsSpsPpsFromSeqHeader}, {"ParseVpsSpsPpsFromSeqHeaderWithoutMalloc", hevc.ParseVpsSpsPpsFromSeqHeaderWithoutMalloc}}
+	annexb := []func([]byte) ([]byte, error){hevc.VpsSpsPpsSeqHeader2Annexb}
+	if c.Enhanced {
+		parsers = []parser{{"ParseVpsSpsPpsFromEnhancedSeqHeader", hevc.ParseVpsSpsPpsFromEnhancedSeqHeader}}
+		annexb = []func([]byte) ([]byte, error){hevc.VpsSpsPpsEnhancedSeqHeader2Annexb}
+	}
+	annexb = append(annexb, func(b []byte) ([]byte, error) { return h2645.SeqHeader2Annexb(false, b) })
+	shape := fmt.Sprintf("%d bytes, arrays %v cut=%d boundary=%v numOfArrays=%d", len(payload), c.shape(), c.Cut, c.CutAtBoundary, c.NumArraysField)
+	for _, p := range parsers {
+		var v, s, pp []byte
+		var err error
+		if pv := pbt.Guard(func() *pbt.Violation { v, s, pp, err = p.f(payload); return nil }); pv != nil {
+			return pbt.V("hevc-parse/panic", "%s panicked on a record (%s): %s", p.name, shape, pv.Detail)
+		}
+		if err != nil {
+			continue
+		}
+		if !member(v, lists[0]) || !member(s, lists[1]) || !member(pp, lists[2]) {
+			return pbt.V("hevc-parse/set-not-in-record", "%s accepted the record (%s) and returned vps %s sps %s pps %s; the record holds vps %s sps %s pps %s",
+				p.name, shape, head(v), head(s), head(pp), heads(lists[0]), heads(lists[1]), heads(lists[2]))
+		}
+	}
+	for i, f := range annexb {
+		var out []byte
+		var err error
+		if pv := pbt.Guard(func() *pbt.Violation { out, err = f(payload); return nil }); pv != nil {
+			return pbt.V("hevc-parse/panic", "sequence header to Annex-B conversion %d panicked on a record (%s): %s", i, shape, pv.Detail)
+		}
+		if err != nil {
+			continue
+		}
+		units, err := codecref.SplitAnnexB(out)
+		if err != nil {
+			return pbt.V("hevc-seqheader2annexb/ref-unreadable", "conversion %d accepted the record (%s) and produced %s: %v", i, shape, head(out), err)
+		}
+		for _, u := range units {
+			if t := int(u[0]>>1&0x3f) - 32; t >= 0 && t <= 2 && !member(u, lists[t]) {
+				return pbt.V("hevc-parse/set-not-in-record", "conversion %d accepted the record (%s) and emitted %s, which the record does not hold", i, shape, head(u))
+			}
+		}
+	}
+	return nil
+}
+
+func (c HevcRobustCase) shape() string {
+	s := ""
+	for i, a := range c.Arrays {
+		if i > 0 {
+			s += " "
+		}
+		s += fmt.Sprintf("%sx%d", []string{"vps", "sps", "pps", "sei"}[a.Type], len(a.Units))
+	}
+	return "[" + s + "]"
+}
+
+func classifyHevcRobust(c HevcRobustCase) (bool, []string) {
+	var labels []string
+	have := [4]int{}
+	emptyArr := false
+	for _, a := range c.Arrays {
+		have[a.Type] += len(a.Units)
+		if len(a.Units) == 0 {
+			emptyArr = true
+		}
+	}
+	for i, n := range []string{"vps", "sps", "pps"} {
+		if have[i] == 0 {
+			labels = append(labels, "no-"+n)
+		}
+	}
+	if have[0] > 0 && have[1] > 0 && have[2] > 0 {
+		labels = append(labels, "all-types-present")
+	}
+	if emptyArr {
+		labels = append(labels, "array-with-zero-units")
+	}
+	if len(c.Arrays) == 0 {
+		labels = append(labels, "zero-arrays")
+	}
+	if c.Cut >= 0 {
+		if c.CutAtBoundary {
+			labels = append(labels, "cut-at-boundary")
+		} else {
+			labels = append(labels, "cut-anywhere")
+		}
+	}
+	if c.NumArraysField >= 0 {
+		labels = append(labels, "numOfArrays-overridden")
+	}
+	if c.Enhanced {
+		labels = append(labels, "enhanced-header")
+	}
+	return true, labels
+}
+
+func TestHevcRecordRobust(t *testing.T) {
+	pbt.Run(t, pbt.Spec[HevcRobustCase]{
+		ID: "C19", Name: "hevc-record-robust", Gen: genHevcRobust, Run: runHevcRobust, Classify: classifyHevcRobust,
+		Quick: 6000, Thorough: 40000,
+	})
+}
